@@ -1,11 +1,11 @@
 package main
 
 import (
-	"go/types"
 	"context"
 	"encoding/json"
 	"flag"
 	"fmt"
+	"go/types"
 	"os"
 	"path/filepath"
 	"regexp"
@@ -319,9 +319,14 @@ func postVacuity(obls []*Obligation) []string {
 			continue // all paths infeasible: leave as failures
 		}
 		for _, o := range os_ {
-			if o.Status == "unsat" {
+			if o.Status == "unsat" && !strings.HasPrefix(o.Model, "assumption: ") {
+				// dead code under the contracts in force (the path dies at a branch)
 				o.Status = "unreachable"
 				info = append(info, o.Name+" ["+o.Pos+"]")
+			} else if o.Status == "unsat" {
+				// the assumed facts contradict each other: everything proved on
+				// this path was proved from `false`
+				o.Text = "the facts assumed along this path contradict each other at: " + trunc(strings.TrimPrefix(o.Model, "assumption: "), 300)
 			}
 		}
 	}
